@@ -63,7 +63,7 @@ def run(ck, tier):
         c04._byte_lengths(c05._Sub(ck, "R-C01-units", ""), p)
     except Exception as e:
         ck.refuted("R-C01-units", "internal:%s" % type(e).__name__, "", "rule could not run: %s" % e)
-    for sub in (_consumers, _lexer, _loops, _spans, _precond):
+    for sub in (_consumers, _lexer, _loops, _spans, _precond, _total):
         try:
             sub(ck, p)
         except Exception as e:      # a rule that cannot run must not vouch
@@ -653,3 +653,57 @@ def _len_derived(g, rv):
             if o[0] == "call" and last(norm(o[3] or o[2] or "")) == "len":
                 return True
     return False
+
+
+# helpers that must be total ---------------------------------------------------------------------------
+PANICKY = {"index", "index_mut", "swap", "drain", "split_off", "remove", "swap_remove", "insert", "unwrap", "expect", "copy_within", "rotate_left", "rotate_right",
+           "split_at", "split_at_mut", "chunks", "chunks_exact", "windows", "copy_from_slice", "clone_from_slice", "get_unchecked", "get_unchecked_mut", "set_len", "from_raw_parts"}
+
+
+def _total(ck, p):
+    """VecExt::remove_indices documents `assumes sorted indices`, but not every caller establishes that
+    (Markdown::remove_hidden_wikilink_tokens builds its queue per pipe token and restarts from the opening
+    bracket when one link has two pipes).  The helper therefore has to be total: no panicking operation."""
+    rule = "R-C01-total"
+    ck.rule(rule, "VecExt::remove_indices is total: its body and closures contain no operation that can panic (no indexing, swap, drain, split_off, remove, insert, unwrap/expect, subtraction overflow; additions of counters excepted) - its callers do not all establish the `sorted indices` assumption it documents")
+    byk = fns_by_key(p)
+    fs = byk.get("<Vec as VecExt>::remove_indices")
+    if not ck.anchor(rule, "<Vec as VecExt>::remove_indices", fs):
+        return
+    f = fs[0]
+    bad = []
+    n_ops = 0
+    bodies = [f]
+    todo = [f]
+    while todo:
+        x = todo.pop()
+        for c in p.closures_of(x.name):
+            bodies.append(c)
+            todo.append(c)
+    for b in bodies:
+        ck.saw(b)
+        for bi, blk in enumerate(b.blocks):
+            if blk["cleanup"]:
+                continue
+            t = blk["t"]
+            n_ops += 1
+            if t["k"] == "assert":
+                msg = t.get("msg")
+                op = str(t.get("op", ""))
+                if msg == "overflow" and op.startswith("Add"):
+                    continue
+                bad.append((t.get("ln"), "a checked %s%s" % (msg, " (%s)" % op if op else "")))
+            elif t["k"] == "call":
+                m = method(t)
+                if m in PANICKY:
+                    bad.append((t.get("ln"), "%s()" % m))
+            for sx in blk["s"]:
+                if sx["k"] == "assign":
+                    for pl in [sx["lhs"]] + ([place_of(sx["rv"]["op"])] if sx["rv"]["k"] == "use" and place_of(sx["rv"]["op"]) else []):
+                        if pl and any(isinstance(e, list) and e[0] == "i" for e in pl[1:]):
+                            bad.append((sx.get("ln"), "an indexed place"))
+    # who calls it with a queue that is not the ascending counter of one scan
+    if bad:
+        ck.refuted(rule, "<Vec@VecExt>::remove_indices", f.loc(bad[0][0]), "the helper contains %s: a queue with a repeated or out-of-order index (which Markdown::remove_hidden_wikilink_tokens produces for a rejected wikilink with two pipes, e.g. `[[||]]`) makes it panic" % ", ".join(sorted({w for _, w in bad})))
+    else:
+        ck.proved(rule, "<Vec@VecExt>::remove_indices", f.span, "no panicking operation among the %d terminators of the helper and its closures" % n_ops)
